@@ -107,4 +107,44 @@ PROPS = {
         "trusted_base": S_TRUSTED,
         "assumptions": S_ASSUME + ["reward bounds are decided with an allowance of 1e-6 token in the quick tier (the wording without allowance is posed in the thorough tier only)"],
     },
+    "C01": {
+        "level": "other",
+        "level_text": "bounded symbolic execution of the real App entry points: every message list / tree shape inside the bound is enumerated, failure points are chosen by the solver (a transfer fails iff the symbolic amount is zero or overdraws a symbolic balance) or by contract fail flags; on every feasible path Err => every byte of storage identical, Ok => balances, kept writes, registry and responses equal a reference interpretation of the messages in the given order (term equality decided by z3)",
+        "level_note": "trusts the symbolic Uint128 semantics (validated against the real cosmwasm-std), the placeholder codec, z3, and the ~60-line reference interpreter of the specification in symx/harness/src/{c01,tree}.rs",
+        "technique": "symbolic execution + SMT (z3) over the real code; counterexample replay on the unpatched build",
+        "explanation": S_EXPL,
+        "engines": [{"kind": "S"}],
+        "functions": [
+            "App::{execute,execute_multi,sudo,wasm_sudo} (src/app.rs), Executor::{execute_contract,instantiate_contract,send_tokens} (src/executor.rs)",
+            "transactional, StorageTransaction, RepLog::commit (src/transactions.rs)",
+            "Router::{execute,sudo} (src/app.rs); WasmKeeper::{execute_wasm,process_wasm_msg_instantiate,register_contract,process_response,execute_submsg,reply,sudo} (src/wasm.rs); BankKeeper (src/bank.rs)",
+        ],
+        "bounds": {
+            "quick": "execute_multi of 1..2 messages from {send U->V, send U->contract, execute contract (tree of <=2 nodes) with/without funds, instantiate (ok / failing after a write) with/without funds}; all balances and amounts symbolic in [0,2^60]; sudo/wasm_sudo/BankSudo with two sub-transfers of symbolic amounts; Executor helpers with failing contracts",
+            "thorough": "3 messages; 2 messages with trees of depth 2 / 3 nodes",
+        },
+        "outside": "staking messages inside execute_multi (C14 checks their atomicity step by step), IBC/gov/custom messages (C17), trees deeper than the bound (C02)",
+        "trusted_base": S_TRUSTED,
+        "assumptions": S_ASSUME,
+    },
+    "C02": {
+        "level": "other",
+        "level_text": "bounded symbolic execution of the real sub-message machinery over every tree shape, reply_on assignment and failing subset inside the bound; bank leaves fail iff the solver makes their symbolic amount zero or larger than the emitting contract's symbolic balance; on every feasible path outcome, kept writes, balances and the order of entry-point invocations equal a reference interpreter of the specification",
+        "level_note": "trusts the symbolic Uint128 semantics, the placeholder codec, z3 and the reference interpreter (symx/harness/src/tree.rs, Interp::run, ~70 lines)",
+        "technique": "symbolic execution + SMT (z3) over the real code, differential against a specification interpreter; counterexample replay on the unpatched build",
+        "explanation": S_EXPL,
+        "engines": [{"kind": "S"}],
+        "functions": [
+            "WasmKeeper::{execute_wasm,call_execute,call_reply,build_app_response,process_response,execute_submsg,reply,with_storage} (src/wasm.rs)",
+            "transactional/StorageTransaction nesting (src/transactions.rs)",
+            "ContractWrapper entry points (src/contracts.rs); Router::execute; BankKeeper::execute",
+        ],
+        "bounds": {
+            "quick": "trees of contract nodes (write a marker, optionally fail after writing) and bank-transfer leaves: depth <=2 with <=3 nodes and <=2 children, and chains with <=4 nodes; every reply_on mode per sub-message, reply handlers that write a marker and optionally fail; balances and amounts symbolic in [0,2^60]",
+            "thorough": "depth 2 / 4 nodes / 2 children and chains of depth 3 / 5 nodes",
+        },
+        "outside": "more than 5 nodes; instantiation as a sub-message node (C01/C11 exercise instantiate); sub-messages emitted from reply handlers",
+        "trusted_base": S_TRUSTED,
+        "assumptions": S_ASSUME,
+    },
 }
